@@ -1286,12 +1286,23 @@ class AutoMap:
     The summary is derived from the real body on every run and every clause is a checked obligation (init/preserve), so
     nothing about the body is assumed."""
 
-    def __init__(self, mod, qual, node, ordinal, out, msg=None, field=None, local_codec=None):
+    def __init__(self, mod, qual, node, ordinal, out, msg=None, field=None, local_codec=None, elem_requires=None):
         self.mod, self.qual, self.node, self.ordinal = mod, qual, node, ordinal
         self.out, self.msg, self.field, self.local_codec = out, msg, field, local_codec
+        self.elem_requires = elem_requires      # fn(element term) -> z3 Bool: what the body may rely on for every element
 
     def install(self):
-        E.LOOPS[(self.mod, self.qual, self.ordinal)] = contract(self.invariant)
+        E.LOOPS[(self.mod, self.qual, self.ordinal)] = contract(self.invariant, self.requires if self.elem_requires else None,
+                                                                self.lemmas if self.elem_requires else None)
+
+    def lemmas(self, it, fr, ctx):
+        src = ctx.iter
+        return [('element', z3.Implies(ctx.i < src.n, self.elem_requires(src.arr[ctx.i])))]
+
+    def requires(self, it, fr, ctx):
+        src = ctx.iter
+        j = z3.Int('j!rq')
+        return [('elements', z3.ForAll([j], z3.Implies(z3.And(j >= 0, j < src.n), self.elem_requires(src.arr[j]))))]
 
     def _out(self, env):
         if self.msg is not None:
@@ -1311,6 +1322,9 @@ class AutoMap:
                 env2[self.out] = CodecList.empty(cur_out.codec) if isinstance(cur_out, CodecList) else \
                     SymList(z3.IntVal(0), z3.K(z3.IntSort(), _default_of(cur_out.elem_sort())), cur_out.elem)
             fr2 = E.Frame(fr.mod, env2, func=fr.func, parent=fr.parent)
+            if self.elem_requires is not None:
+                # the generic element is an arbitrary element satisfying the loop's `requires` (the constants are fresh)
+                it.run.assume(self.elem_requires(gens[0][1]))
             it.assign(fr2, self.node.target, view.target_value(gens))
             try:
                 it.block(fr2, self.node.body)
@@ -1708,3 +1722,47 @@ def invoke_real(it, fv, args, kw):
         it.stack.pop()
         it.depth -= 1
     return None
+
+
+# =========================================================================================== list(xs) of a codec list
+_prev_list = M.BUILTINS['list'].fn
+
+
+def _b_list(it, args, kw):
+    if args and isinstance(args[0], CodecList):
+        return CodecList(args[0].n, args[0].arr, args[0].codec)
+    return _prev_list(it, args, kw)
+
+
+M.BUILTINS['list'] = Builtin('list', _b_list)
+
+
+# =========================================================================================== reversed(xs) of an array-list
+_prev_reversed = M.BUILTINS['reversed'].fn
+
+
+def _b_reversed(it, args, kw):
+    v = args[0]
+    if isinstance(v, SymList) and v.arr is not None and M.try_iterate(it, v) is None:
+        j = z3.Int('j!rv')
+        arr = z3.Lambda([j], v.arr[v.n - 1 - j])
+        if isinstance(v, CodecList):
+            return CodecList(v.n, arr, v.codec)
+        return SymList(v.n, arr, v.elem)
+    return _prev_reversed(it, args, kw)
+
+
+M.BUILTINS['reversed'] = Builtin('reversed', _b_reversed)
+
+
+# =========================================================================================== getattr(obj, None)
+_prev_getattr_b = M.BUILTINS['getattr'].fn
+
+
+def _b_getattr(it, args, kw):
+    if len(args) >= 2 and args[1] is None:
+        raise PyRaise(it.make_exc('TypeError', ['attribute name must be string, not NoneType']))
+    return _prev_getattr_b(it, args, kw)
+
+
+M.BUILTINS['getattr'] = Builtin('getattr', _b_getattr)
